@@ -305,10 +305,10 @@ func buildRing(g *gb, r ring) uint32 {
 			c.ReturnCall(nxt)
 		case "call_indirect":
 			needTable = true
-			c.I32Const(int32((i + 1) % n)).CallIndirect(ti, 0)
+			c.I32Const(int32((i+1)%n)).CallIndirect(ti, 0)
 		case "return_call_indirect":
 			needTable = true
-			c.I32Const(int32((i + 1) % n)).ReturnCallIndirect(ti, 0)
+			c.I32Const(int32((i+1)%n)).ReturnCallIndirect(ti, 0)
 		case "bounce":
 			// host calls the export "step" (= the next function); only with Params == 0
 			c.Call(g.bounce)
